@@ -7,7 +7,7 @@ from cases_ctrl import Case, goto_next_or_orphan
 from stdcfg import repo_cfg
 import sem
 
-TEXT_TYPES = ["", "", "ascii", "braille", "custom"]
+TEXT_TYPES = ["", "", "ascii", "braille", "custom", "JPN", "fixedString"]
 SUFFIX = {"": "$", "ascii": "\\0", "braille": "$"}
 WORDS = ["Hello", "world", "é", "ñandú", "{PLAYER}", "It's", "a", "b", "…", "Go!", "50%", "%s", "100%!"]
 
@@ -523,11 +523,12 @@ def gen_C09(rnd, n, tier):
             p = gen_content(rnd)
             if rnd.random() < 0.1: p = ""
             elif rnd.random() < 0.08: p = rnd.choice(["YES", "K_1", "FLAG_X", "Hello$", "msgbox"])
+            elif rnd.random() < 0.12: p += rnd.choice([" ", "  ", "\t", " \t"])        # a part that ends in blanks
             parts.append(p)
         # newline + indentation inside a part becomes one space
         srcparts = []; vals = []
         for p in parts:
-            if " " in p and rnd.random() < 0.2:
+            if " " in p and p[p.index(" ") + 1:p.index(" ") + 2] not in ("", " ", "\t") and rnd.random() < 0.2:       # (blanks that start the continuation line are indentation)
                 k = p.index(" "); ub = rnd.choice(["", "", "\u3000", "\u00a0"])      # a Unicode blank that starts the continuation line is text
                 srcparts.append('"%s%s     %s%s"' % (p[:k], rnd.choice(["\n", "\n", "\r\n"]), ub, p[k + 1:])); vals.append(p[:k] + " " + ub + p[k + 1:])
             else: srcparts.append('"%s"' % p); vals.append(p)
@@ -579,13 +580,14 @@ def oracle_C09(case, res):
     return None
 
 # ---------------- C10 ----------------
-ARG_ATOMS = ["VAR_A", "7", "-3", "0x1F", "FLAG_X", "+", "|", "TRUE", "var", "if", "*", "=", "0x1f", "0xdeadBEEF", "0xa", "VAR_0x8004", "global", "local", "%", "<=", "[", "]", "{", "}", ":", "!"]
+ARG_ATOMS = ["VAR_A", "7", "-3", "0x1F", "FLAG_X", "+", "|", "TRUE", "var", "if", "*", "=", "0x1f", "0xdeadBEEF", "0xa", "VAR_0x8004", "global", "local", "%",
+             "mart", "text", "script", "movement", "const", "switch", "case", "while", "do", "break", "continue", "elif", "else", "raw", "default", "mapscripts", "flag", "defeated", "value", "true", "FALSE", "~", "<=", "[", "]", "{", "}", ":", "!"]
 def gen_arg(rnd, depth=0):
     n = rnd.randint(1, 3); toks = []
     for _ in range(n):
         if depth < 2 and rnd.random() < 0.2:
             inner = gen_arg(rnd, depth + 1); toks += ["("] + inner + [")"]
-        else: toks.append(rnd.choice(ARG_ATOMS[:19]))
+        else: toks.append(rnd.choice(ARG_ATOMS[:41]))
     return toks
 
 F21_SRC = 'script S {\n  mixarg(FOO "a")\n  mixarg("a" ascii"b", 1)\n}\n'
@@ -707,7 +709,9 @@ def gen_C14(rnd, n, tier):
                 if rnd.random() < 0.12:
                     # poryswitch-selected part; switch value is A: an explicitly empty selected case
                     # contributes nothing, a colon case one step, a brace case all its steps
-                    kind = rnd.choice(["empty", "colon", "brace"])
+                    kind = rnd.choice(["empty", "colon", "brace", "dup", "num"])
+                    if kind == "dup": src.append("poryswitch(V) { A: walk_left B: walk_right * 2 A { dup_down * 2 face_left } 7: x }"); steps += ["dup_down", "dup_down", "face_left"]; continue   # a repeated case: the later one counts
+                    if kind == "num": src.append("poryswitch(N) { 1 { walk_left * 3 } 2 { num_down * 2 } _ { } }"); steps += ["num_down", "num_down"]; continue
                     if kind == "empty": src.append("poryswitch(V) { A {} B { walk_left * 3 } _ { walk_right * 2, delay_16 } }")
                     elif kind == "colon": src.append("poryswitch(V) { B: walk_left A: jump_up _: walk_right }"); steps.append("jump_up")
                     else: src.append("poryswitch(V) { _ { walk_right } A { jump_a jump_b * 2 } }"); steps += ["jump_a", "jump_b", "jump_b"]
@@ -729,7 +733,7 @@ def gen_C14(rnd, n, tier):
                 exp.append(st)
                 if st == "step_end": break
             if not exp or exp[-1] != "step_end": exp.append("step_end")
-            cfg = base_cfg(switches={"V": "A"})
+            cfg = base_cfg(switches={"V": "A", "N": "2"})
             out.append(Case(compile_line(cfg, s), s, cfg, {"kind": "movement", "label": label, "want": exp, "err": err}))
         else:
             items = [rnd.choice(["ITEM_A", "ITEM_B", "ITEM_NONE", "ITEM_C", "K_ITEM", "K_END", "PS_EMPTY", "PS_TWO", "K_MOD", "K_FMT", "PS_MOD"]) for _ in range(rnd.randint(0, 6))]
@@ -888,6 +892,7 @@ class Pory:
         r = s.r
         cases = r.sample(VALS, r.randint(1, 3)); has_def = r.random() < 0.7
         keys = cases + (["_"] if has_def else []); r.shuffle(keys)
+        if r.random() < 0.2: keys.append(r.choice(keys))        # a repeated case label: the later one counts
         parts = []; sel = {}
         for k in keys:
             brace = r.random() < 0.5
